@@ -2,5 +2,5 @@
 # usage: timing.sh <dir> <Harness> <arg>...   (dev helper: one summary block per shape)
 dir=$1; h=$2; shift 2
 for a in "$@"; do
-  timeout 900 /verif/bin/gosym run --dir $dir "$h@$a" 2>&1 | grep -v "^loaded\|cover" | cut -c1-300
+  timeout 900 /verif/bin/gosym run $GOSYM_FLAGS --dir $dir "$h@$a" 2>&1 | grep -v "^loaded\|cover" | cut -c1-300
 done
